@@ -94,7 +94,9 @@ class Gen:
         return {"k": "coord", "i": self.r.randrange(self.dim)}
 
     def const(self):
-        return {"k": "const", "name": self.r.choice(["kappa", "mu"])}
+        # "eps" and "alpha" are the stems of the auxiliary names of linearize / is_linear_expression
+        # (eps_<tag>, alpha_<tag>): a user constant with such a name must stay an ordinary constant
+        return {"k": "const", "name": self.r.choice(["kappa", "mu", "kappa", "mu", "eps", "alpha"])}
 
     def number(self):
         r = self.r
@@ -376,8 +378,8 @@ class Gen:
                 else:
                     label = "selfprod"
             v = self.violation(label, group, reg == "boundary")
-            if r.random() < 0.25:
-                integ[reg] = [v]
+            if r.random() < (0.6 if (label == "const" and len(regions) > 1) else 0.25):
+                integ[reg] = [v]          # the violation is the whole integral over this region
             else:
                 integ[reg].insert(r.randrange(len(integ[reg]) + 1), v)
             self.vgroup = "tests" if group is self.tests else "trials"
